@@ -79,6 +79,25 @@ Member(i, q) == /\ "Member" \in Ops
                 /\ fault' = FaultAfter(i, Len(q))
                 /\ act' = A("Member", i, 0, q) /\ UNCHANGED <<cc, its>>
 
+\* A call asking instance i for level n that does not return: an exception (KeyboardInterrupt) passes through it
+\* while levels are being built.  Whole levels up to some k < n are in place, nothing has been compacted, and an
+\* arbitrary set S of members of level k has had its end values recorded for the abandoned level k + 1.  Later
+\* calls are ordinary calls from that state; the invariants say their replies are still those of the definition.
+\* With "InterruptEarlyAppend" in Ops the unfinished level stays registered (a wrong design TLC must refute).
+Interrupted(i, n) ==
+    /\ "Interrupt" \in Ops /\ Len(insts[i].levels) <= n
+    /\ \E k \in (Len(insts[i].levels) - 1)..(n - 1) : \E L \in {BuildTo(insts[i].levels, Bas(i), k)} :
+          IF Bas(i).mesh THEN insts' = [insts EXCEPT ![i].levels = L]
+          ELSE \E S \in SUBSET DOMAIN L[k + 1] :
+                 insts' = [insts EXCEPT ![i].levels = IF "InterruptEarlyAppend" \in Ops /\ S # DOMAIN L[k + 1]
+                                                       THEN EarlyAppendClassical(L, Bas(i), S) ELSE PartialClassical(L, Bas(i), S)]
+    /\ reply' = NoReply /\ act' = A("Interrupted", i, n, <<>>) /\ UNCHANGED <<cc, its, fault>>
+\* the trace form: the interruption left exactly the levels 0..k
+InterruptedTo(i, k) ==
+    /\ "Interrupt" \in Ops /\ Len(insts[i].levels) - 1 <= k
+    /\ insts' = [insts EXCEPT ![i].levels = BuildTo(@, Bas(i), k)]
+    /\ reply' = NoReply /\ act' = A("Interrupted", i, k, <<>>) /\ UNCHANGED <<cc, its, fault>>
+
 \* Av(basis): get or create through the class cache
 NewAv(b) == /\ "NewAv" \in Ops
             /\ IF cc[b] # 0
@@ -179,6 +198,7 @@ Next == \/ \E b \in DOMAIN Bases : NewAv(b)
              \/ \E c \in 0..MaxLen + 2 : OpenFirst(i, c)
              \/ \E q \in Probe : Member(i, q)
              \/ \E j \in DOMAIN insts : IsSubclass(i, j)
+             \/ \E n \in 0..MaxLen : Interrupted(i, n)
         \/ \E t \in DOMAIN its : NextIt(t)
 
 \* ---- properties ---------------------------------------------------------------------
